@@ -36,6 +36,8 @@ structure Rel (pt : PTable) (t : Table) : Prop where
   alloc : pt.allocated = t.allocated
   size : pt.size = t.size
   blocks : pt.blocks = t.blocks
+  ipb : pt.ipb = t.ipb
+  dcap : pt.dcap = t.dcap
   kv : ∀ id, (pt.items id).key = (t.items id).key ∧ (pt.items id).value = (t.items id).value
   chains : t.allocated = true → ∀ b, Chain pt.items b (pt.heads b) (t.data b)
   order : Dll pt.items pt.self pt.begin t.order
@@ -163,6 +165,8 @@ theorem Rel.set_value {pt : PTable} {t : Table} (hr : Rel pt t) (id v : Nat) :
   · exact hr.alloc
   · exact hr.size
   · exact hr.blocks
+  · exact hr.ipb
+  · exact hr.dcap
   · intro j
     by_cases e : j = id
     · subst e; simp [upd, (hr.kv j).1]
